@@ -238,6 +238,69 @@ pub fn enumerate(thorough: bool, part: usize, parts: usize, sink: &mut EnumSink)
             sink.stats.exhaustive_spaces.push(format!("{}; every integer in [-2,|s|+2] u {{i32::MIN, MIN+1, MAX-1, MAX}} as index, 8 length values", desc));
         }
     }
+    // near-unary family: s = a^n b a^tail, p = a^m b (one occurrence of b): the first occurrence of p is at
+    // n - m when m <= n, there is none otherwise — known in closed form, so n and m can be far beyond the
+    // sizes a quadratic oracle affords (skip tables, failure functions, hashed windows and "give up and
+    // switch algorithm" budgets all depend on long partial matches and long borders)
+    {
+        let mut fam: Vec<(usize, usize, usize)> = Vec::new();
+        for tail in 0..=300usize {
+            fam.push((200, 50, tail));
+        }
+        for &(n, m) in &[(40usize, 33usize), (300, 299), (300, 300), (300, 301), (1000, 64), (5000, 4097), (70_001, 70_000), (66_000, 65_536), (131_073, 131_072), (200_000, 3)] {
+            for tail in [0usize, 1, 34, 70] {
+                fam.push((n, m, tail));
+            }
+        }
+        for (idx, &(n, m, tail)) in fam.iter().enumerate() {
+            if idx % parts != part {
+                continue;
+            }
+            let mut o = Outcome::default();
+            let (a, b, x) = (0x61u32, 0x62u32, 0x78u32);
+            let mut sv = vec![a; n];
+            sv.push(b);
+            sv.extend(std::iter::repeat(a).take(tail));
+            let mut pv = vec![a; m];
+            pv.push(b);
+            let (cs, cp, cu) = (smt(&sv), smt(&pv), smt(&[x]));
+            let exp_idx: i64 = if m <= n { (n - m) as i64 } else { -1 };
+            let what = || format!("s = a^{} b a^{}, p = a^{} b", n, tail, m);
+            o.evals += 6;
+            let got = crate::runner::catch(|| (str_indexof(&cs, &cp, 0) as i64, str_contains(&cs, &cp), vec_of(&str_replace(&cs, &cp, &cu)), vec_of(&str_replace_all(&cs, &cp, &cu)), str_indexof(&cs, &cp, exp_idx.max(0) as i32) as i64, str_indexof(&cs, &cp, (exp_idx.max(0) + 1) as i32) as i64));
+            match got {
+                Err(msg) => o.fail("C06/panics", format!("{}: {}", what(), msg)),
+                Ok((i0, has, rep, rep_all, i_at, i_after)) => {
+                    let exp_rep: Vec<u32> = if exp_idx >= 0 {
+                        let mut v = vec![a; n - m];
+                        v.push(x);
+                        v.extend(std::iter::repeat(a).take(tail));
+                        v
+                    } else {
+                        sv.clone()
+                    };
+                    if i0 != exp_idx || i_at != exp_idx {
+                        o.fail("C06/indexof", format!("{}: str_indexof(s, p, 0) = {}, str_indexof(s, p, {}) = {}, expected {}", what(), i0, exp_idx.max(0), i_at, exp_idx));
+                    } else if i_after != -1 {
+                        o.fail("C06/indexof", format!("{}: str_indexof(s, p, {}) = {}, expected -1", what(), exp_idx.max(0) + 1, i_after));
+                    } else if has != (exp_idx >= 0) {
+                        o.fail("C06/contains", format!("{}: str_contains = {}", what(), has));
+                    } else if rep != exp_rep {
+                        o.fail("C06/replace", format!("{}: str_replace(s, p, \"x\") has length {} (expected {})", what(), rep.len(), exp_rep.len()));
+                    } else if rep_all != exp_rep {
+                        o.fail("C06/replace_all", format!("{}: str_replace_all(s, p, \"x\") has length {} (expected {})", what(), rep_all.len(), exp_rep.len()));
+                    }
+                }
+            }
+            sink.case(&o, true, || what());
+            if sink.failed() {
+                return;
+            }
+        }
+        if part == 0 {
+            sink.stats.exhaustive_spaces.push("near-unary family s = a^n b a^tail, p = a^m b with the closed-form answer: (n,m) = (200,50) for every tail in 0..=300; (40,33) (300,299..301) (1000,64) (5000,4097) (70001,70000) (66000,65536) (131073,131072) (200000,3) with tails 0, 1, 34, 70".to_string());
+        }
+    }
     if part == 0 {
         sink.stats.samples.push("[enum] s = \"abab\", t = \"ab\", u = \"b\", i in [-2..6, MIN, MIN+1, MAX-1, MAX], n in [-1,0,1,2,4,5,MAX,MIN]".to_string());
     }
